@@ -1,0 +1,30 @@
+//go:build verif
+
+package protocol
+
+import (
+	"time"
+
+	"github.com/enfein/mieru/v3/pkg/replay"
+)
+
+// VerifSetReplayCaches replaces the two process-wide replay caches by fresh
+// ones with the given capacities and retention intervals, and returns a
+// function that puts the original caches back. It must be called while no
+// underlay is running. Verification builds only; nothing calls it otherwise.
+func VerifSetReplayCaches(streamCapacity int, streamInterval time.Duration, packetCapacity int, packetInterval time.Duration) (restore func()) {
+	oldStream, oldPacket := streamReplayCache, packetReplayCache
+	streamReplayCache = replay.NewCache(streamCapacity, streamInterval)
+	packetReplayCache = replay.NewCache(packetCapacity, packetInterval)
+	return func() {
+		streamReplayCache, packetReplayCache = oldStream, oldPacket
+	}
+}
+
+// VerifReplayCacheSizes reports the number of entries in the current and
+// previous generations of the two process-wide replay caches.
+func VerifReplayCacheSizes() (streamCurrent, streamPrevious, packetCurrent, packetPrevious int) {
+	streamCurrent, streamPrevious = streamReplayCache.Sizes()
+	packetCurrent, packetPrevious = packetReplayCache.Sizes()
+	return
+}
